@@ -151,7 +151,12 @@ def rot_specs(near_gimbal_weight=2):
     # rotations by exactly 180, 120, 90 degrees about generic axes are covered by quat with special components
     spq = st.tuples(st.sampled_from([0.0, 1.0, -1.0, 0.5]), st.sampled_from([0.0, 1.0, -1.0, 0.5]), st.sampled_from([0.0, 1.0, 0.5]),
                     st.sampled_from([0.0, 1.0, -0.5])).filter(lambda t: sum(x * x for x in t) > 0.1).map(lambda t: {"kind": "quat", "q": list(t)})
-    return st.one_of(*([quat, eul, axis, prod, speul, spq] + [gim] * near_gimbal_weight))
+    # a generic axis with a rotation angle at / a hair away from the ends: almost the identity, almost a half turn
+    # (1e-12 .. 1e-3 rad off), or exactly 0 / pi
+    near_end = st.tuples(st.sampled_from([0.0, math.pi]), st.one_of(st.just(0.0), logfl(1e-12, 1e-3)), st.sampled_from([-1.0, 1.0])).map(lambda t: t[0] + t[1] * t[2])
+    aa = st.tuples(fl(-1, 1), fl(-1, 1), fl(-1, 1), near_end).filter(lambda t: t[0] * t[0] + t[1] * t[1] + t[2] * t[2] > 1e-3).map(
+        lambda t: {"kind": "aa", "axis": [t[0], t[1], t[2]], "angle": t[3]})
+    return st.one_of(*([quat, eul, axis, prod, speul, spq, aa] + [gim] * near_gimbal_weight))
 
 
 def build_rotation(spec):
@@ -165,6 +170,8 @@ def build_rotation(spec):
         return O.euler_ref(e[0], e[1], e[2])
     if k == "prod":
         return O.axis_aligned()[spec["i"]] @ build_rotation(spec["b"])
+    if k == "aa":
+        return O.axis_angle(spec["axis"], spec["angle"])
     raise ValueError(k)
 
 
@@ -172,6 +179,9 @@ def rot_is_axis(U, tol=1e-12):
     return bool(np.all(np.minimum(np.abs(U), np.abs(np.abs(U) - 1)) < tol))
 
 
-def hkls(box, allow_zero=False):
+def hkls(box, allow_zero=False, big=None):
+    """integer triples in [-box, box]^3; with big=N one case in four takes its indices from [-N, N]^3 (high orders)"""
     t = st.tuples(st.integers(-box, box), st.integers(-box, box), st.integers(-box, box)).map(list)
+    if big:
+        t = st.one_of(t, t, t, st.tuples(st.integers(-big, big), st.integers(-big, big), st.integers(-big, big)).map(list))
     return t if allow_zero else t.filter(lambda h: any(h))
